@@ -8,8 +8,21 @@ PROPS = {
     "C14": {
         "theorems": ["C14_any_schedule", "C14_each_operand_once"],
         "axioms": [],
-        "modes": [{"name": "c14", "quick_n": 3, "thorough_n": 12, "shard": 60}],
+        "modes": [{"name": "c14", "quick_n": 2, "thorough_n": 10, "shard": 60}],
         "rule": "chains v0 o v1 o ... over a 32-operator table with pairwise distinct priorities: all application orders of up to 6 (quick) / 7 (thorough) operators exhaustively, structured (ascending, descending, runs, alternating, inside-out) and random orders at lengths around 32/64/128/192(/257/513); evaluated through FlatEx (single-word tracker <= 64 operands, slice tracker above), DeepEx (always slice tracker), flat->deep (tracker inside flatex_to_deepex) and deep->flat; non-trivial = at least 2 operands; distinct = distinct (program text)",
         "assumptions": ["the machine-word trackers of number_tracker.rs are covered by the correspondence (the proof is about the boolean-vector tracker they implement)"],
     },
+
+    "C01": {"theorems": ["C01_flat_eval_is_precedence_partial"], "axioms": [],
+            "modes": [{"name": "c01", "quick_n": 1500, "thorough_n": 12000, "shard": 120}]},
+    "C02": {"theorems": [], "modes": [{"name": "c02", "quick_n": 500, "thorough_n": 4000, "shard": 120}]},
+    "C03": {"theorems": [], "modes": [{"name": "c03", "quick_n": 500, "thorough_n": 4000, "shard": 150}]},
+    "C04": {"theorems": [], "modes": [{"name": "c04", "quick_n": 250, "thorough_n": 2000, "shard": 25}]},
+    "C07": {"theorems": [], "modes": [{"name": "c07", "quick_n": 250, "thorough_n": 2500, "shard": 250}]},
+    "C08": {"theorems": [], "modes": [{"name": "c08", "quick_n": 800, "thorough_n": 6000, "shard": 120}]},
+    "C10": {"theorems": [], "modes": [{"name": "c10", "quick_n": 400, "thorough_n": 3000, "shard": 40}]},
+    "C11": {"theorems": [], "modes": [{"name": "c11", "quick_n": 400, "thorough_n": 3000, "shard": 40}]},
+    "C12": {"theorems": [], "modes": [{"name": "c12", "quick_n": 400, "thorough_n": 3000, "shard": 60}]},
+    "C13": {"theorems": [], "modes": [{"name": "c13", "quick_n": 3, "thorough_n": 12, "shard": 120}]},
+    "C15": {"theorems": [], "modes": [{"name": "c15", "quick_n": 150, "thorough_n": 1500, "shard": 60}]},
 }
